@@ -119,6 +119,9 @@ var c04Inputs = []string{
 	"func lk() { catch(zq).err }; println(lk())", "zq = 1; println(lk())", "del(zq); println(lk())",
 	// a global constant rebound to a value that is "equal" but not the same (the rebinding is allowed): -0.0 for 0.0, [1.0] for [1]
 	"ZZ = 0.0; func rz() { 1 / ZZ }; println(rz())", "ZZ = -0.0; println(rz(), 1 / ZZ)", "AA = [1]; func ra() { AA[0] / 2 }; println(ra())", "AA = [1.0]; println(ra(), AA[0] / 2)",
+	// an impure callee that fails (reads mutable state / a counter), the error caught by an otherwise pure caller
+	"xq = 0; func gq() { if xq == 0 { error(\"zero\") } else { xq } }; func fq() { catch(gq()).err }; println(fq())", "xq = 1; println(fq())", "xq = 0; println(fq(), fq())",
+	"func gr() { if verif_counter() % 2 == 0 { error(\"even\") } else { 1 } }; func fr() { catch(gr()).err }; println(fr(), fr(), fr(), fr())",
 	// functions made by another interpreter state: same text, different globals
 	"ua = unjson(\"N=1; ()=>N\"); ub = unjson(\"N=2; ()=>N\"); println(ua(), ub(), ua())",
 }
@@ -208,7 +211,7 @@ func init() {
 		Level: "model_checking",
 		Rule: "depth-bounded complete exploration of REPL histories: every sequence of <=3 (thorough 4) inputs over an alphabet of ~40 inputs (define/redefine a callee, closures with identical inner text capturing lower-case / upper-case / function-valued variables, functions that print, fail, read and write globals, wrap a non-deterministic extension, take hashable and unhashable arguments, 5 arguments, -0.0/0.0, 1/1.0/\"1\"/true, recursion, functions whose printed text coincides) run on one persistent state with the function cache on and off (build-tag hook), each with registers on and off. Oracle: identical output (order and multiplicity), shown results and error texts for every input. Non-trivial = every history (each replays real calls); distinct by the input sequence. The alphabet includes names bound nowhere when first read (error caught), constants rebound to equal-but-different values (-0.0 for 0.0, [1.0] for [1]) and same-text functions made by two unjson states.",
 		Assume:      []string{"cache disabled through the verif build-tag hook eval.VerifCacheOff (lookups miss, stores are no-ops)", "non-deterministic extensions modelled by verif_counter() (DontCache)"},
-		QuickCap:    150 * time.Second,
+		QuickCap:    300 * time.Second,
 		ThoroughCap: 20 * time.Minute,
 		HangLimit:   240 * time.Second,
 		Run:         runC04,
